@@ -152,6 +152,10 @@ impl Tokens {
                 prev_base = true;
             }
         }
+        // a word may also end in a combining mark (after a narrow or a wide letter)
+        if prev_base && rng.below(1000) < p.comb_permille {
+            s.push(*rng.pick(&COMB));
+        }
         s
     }
     /// Short non-unique word (1..3 columns), for tiny cells.
@@ -285,7 +289,19 @@ impl<'a> DocGen<'a> {
                 self.in_link = false;
                 let name = format!("n{}", self.next_id);
                 self.next_id += 1;
-                out.push(El::with("a", inner).attr("name", &name).node());
+                // a named anchor may be a link as well, with the attributes in either order
+                let e = match if self.p.links { self.rng.below(4) } else { 0 } {
+                    2 => {
+                        let href = self.href();
+                        El::with("a", inner).attr("href", &href).attr("name", &name)
+                    }
+                    3 => {
+                        let href = self.href();
+                        El::with("a", inner).attr("name", &name).attr("href", &href)
+                    }
+                    _ => El::with("a", inner).attr("name", &name),
+                };
+                out.push(e.node());
                 i += 2;
             } else if self.p.images && r < 31 {
                 let alt = self.tok.unique(self.rng, &self.p.clone());
